@@ -5,6 +5,7 @@ CONSTANTS
   Kind <- K_2long_rdv
   HoldLock = FALSE
   OneShot = FALSE
+  Guarded = TRUE
   Spawned = 3
 INVARIANT Safety
 PROPERTIES EventuallyAllDone NoIdleStarvation
